@@ -291,4 +291,47 @@ theorem implied_x_f7_witness :
       = some ((rangeList 0 16 2).map (fun v => [some v])) := by
   refine ⟨by decide +kernel, by decide +kernel, by decide +kernel⟩
 
+/-! ## Sub-selection is a sub-matrix (direct X) — witness level
+
+The general statement `setFrameSet_values` (for every log pass with explicit X, every slice and channel list the loaded
+matrix is the full matrix restricted to rows `range(slice)` and columns `chans ∪ {x}`) is NOT proved here: its pieces are
+(`rle_lookup`: frame → record and offset; `events_cover`: which bytes are read for the frames of one record) but the
+composition through `_retFrameSetMap`/`_sliceFromList`/`renumber`/`setFrameBytes` is only checked on the witness below
+(by kernel evaluation) and by the correspondence run. -/
+
+/-- explicit X (channel 0, rep code 73), a 2-sample × 2-burst channel of 1-byte words, a 2-byte channel; records of
+3 and 2 frames; frame `f` holds X = 1000+10f, then bytes 10f+1 … 10f+4, then the word 256·(10f+5) + 10f+6 -/
+def dfsrD : Dfsr := ⟨0, 0, 0, 255, none, some [46, 49, 73, 78], some [46, 49, 73, 78], [⟨4, 1, 73⟩, ⟨4, 2, 66⟩, ⟨2, 1, 79⟩]⟩
+
+def frameD (f : Nat) : List Nat :=
+  [0, 0, (1000 + 10 * f) / 256, (1000 + 10 * f) % 256, 10 * f + 1, 10 * f + 2, 10 * f + 3, 10 * f + 4, 10 * f + 5, 10 * f + 6]
+
+def storeD : Store := [(50, [0, 0] ++ frameD 0 ++ frameD 1 ++ frameD 2), (90, [0, 0] ++ frameD 3 ++ frameD 4)]
+
+def lpD : LogPass :=
+  match LogPass.new dfsrD 0 with
+  | .ok lp =>
+    (match lp.addType01Data 50 0 30 1000 with
+     | .ok a => (match a.addType01Data 90 0 20 1030 with | .ok b => b | .error _ => a)
+     | .error _ => lp)
+  | .error _ => ⟨dfsrD, ⟨0, []⟩, 0, [], none, false⟩
+
+/-- the full matrix row of frame `f` (raw words) -/
+def rowD (f : Nat) : List (Option Nat) :=
+  [some (1000 + 10 * f), some (10 * f + 1), some (10 * f + 2), some (10 * f + 3), some (10 * f + 4),
+   some (256 * (10 * f + 5) + 10 * f + 6)]
+
+/-- On the witness: the full load gives the full matrix; `slice(1,5,2)` with channel list `[2]` gives rows 1, 3 and
+columns of channels `{0 (X), 2}`; a following full load is again the full matrix (history), and the stepped load read
+only inside the two records. -/
+theorem setFrameSet_values_witness :
+    (setFrameSet lpD storeD none none).1.frameSet.map (·.frames) = some ((List.range 5).map rowD) ∧
+    (setFrameSet lpD storeD (some ⟨1, 5, 2⟩) (some [2])).1.frameSet.map (·.frames)
+      = some ([1, 3].map (fun f => [(rowD f)[0]!, (rowD f)[5]!])) ∧
+    (setFrameSet (setFrameSet lpD storeD (some ⟨1, 5, 2⟩) (some [2])).1 storeD none none).1.frameSet.map (·.frames)
+      = some ((List.range 5).map rowD) ∧
+    (setFrameSet lpD storeD (some ⟨1, 5, 2⟩) (some [2])).2
+      = .ok [.seek 50, .read 50 0 2, .skip 10, .read 50 12 4, .skip 4, .read 50 20 2, .seek 90, .read 90 0 2, .read 90 2 4, .skip 4, .read 90 10 2] := by
+  refine ⟨by decide +kernel, by decide +kernel, by decide +kernel, by decide +kernel⟩
+
 end TD.C06
